@@ -138,6 +138,14 @@ func compareDatum(d datum.Datum, r *ref, declared []float64) (what string, known
 func genBounds(g *ev.RNG) []float64 {
 	n := g.Range(2, 8)
 	pool := []float64{-1000, -3.5, -2.5, -1, -0.5, 0, 1e-9, 1e-7, 0.001, 0.5, 1, 2, 2.5, 4, 8, 10, 100, 1e6, 1e15, 1e300}
+	if g.Intn(5) == 0 {
+		// fine-grained histograms: many boundaries (a lookup that depends on
+		// the number of buckets must agree with the few-bucket one)
+		n = g.Range(9, 48)
+		for i := 3; i <= 40; i++ {
+			pool = append(pool, float64(i)+0.25, float64(i)*16)
+		}
+	}
 	set := map[float64]bool{}
 	for len(set) < n {
 		set[ev.PickOne(g, pool)] = true
@@ -208,7 +216,7 @@ func boundsLit(b []float64) string {
 func TestC21(t *testing.T) {
 	r := ev.Start(t, "C21", "exploration")
 	defer r.Finish()
-	r.Rule("(declaration, observation sequence) cases: 2-8 sorted bounds from a pool incl. negative, 0, 1e-9..1e300; observations at / just below / just above bounds, negatives, ±0, ±Inf, NaN. Path A: datum.MakeBuckets+Observe with ranges built as the compiler builds them; path B: `histogram` declared in a compiled program (scalar and `by k`), values fed as log lines through float($2) and, for whole numbers, also through an Int-typed capture into a third histogram, then read from the datum, the JSON export and the Prometheus text export. Non-trivial: >=3 observations hitting >=2 different reference buckets; distinct by (bounds, observations).")
+	r.Rule("(declaration, observation sequence) cases: 2-8 (one case in five: 9-48) sorted bounds from a pool incl. negative, 0, 1e-9..1e300; observations at / just below / just above bounds, negatives, ±0, ±Inf, NaN. Path A: datum.MakeBuckets+Observe with ranges built as the compiler builds them; path B: `histogram` declared in a compiled program (scalar and `by k`), values fed as log lines through float($2) and, for whole numbers, also through an Int-typed capture into a third histogram, then read from the datum, the JSON export and the Prometheus text export. Non-trivial: >=3 observations hitting >=2 different reference buckets; distinct by (bounds, observations).")
 	r.Assume("float sum compared bit-exactly in observation order (NaN-aware)", "log-line path: values printed with strconv 'g' -1 and parsed by the VM with ParseFloat (round-trips exactly)")
 	n := ev.Pick(3000, 200000)
 	rng := ev.NewRNG(ev.Seed(), "c21")
